@@ -14,6 +14,16 @@ T = {
  'C05-2': dict(breaks='C05', what='tensor marginal constraint matrix built once from the mean coefficient slice', needs='te(...) with a constrained marginal whose coefficient slices violate the constraint in different places', caught_by=['C05']),
  'C06-1': dict(breaks='C06', what='Distribution.phi passes weights to V as well (weights counted twice)', needs='unknown scale (normal / gamma / inv_gauss, scale=None) and non-unit weights', caught_by=['C06', 'C08']),
  'C06-2': dict(breaks='C06', what='BinomialDist.V drops the `levels` factor', needs='BinomialDist(levels=k), k > 1', caught_by=['C06']),
+ 'C07-1': dict(breaks='C07', what='LogitLink.gradient drops the `levels` numerator (same as C01-2, found independently)', needs='logit link with BinomialDist(levels != 1)', caught_by=['C07']),
+ 'C07-2': dict(breaks='C07', what='LogLink.link maps non-positive values to -inf ("safe log"), defeating check_y\'s NaN-based domain test', needs='a log-link model given a negative target', caught_by=['C07', 'C11']),
+ 'C09-1': dict(breaks='C09', what='normal / t critical values memoised on the model, keyed on (q, known_scale) but not on n - edof; the cache survives fit()', needs='history: fit (unknown scale), request level q, refit the same object with another n or lam, request q again', caught_by=['C09', 'C15'], strengthened='C09 gained the iv.history stream (refit histories compared with the model at the current statistics) after missing it; C15 flagged the new state from the start'),
+ 'C09-2': dict(breaks='C09', what='block-wise variance of the linear predictor for X with more than 10000 rows drops the last partial block', needs='a query with > 10000 rows that is not a multiple of 10000', caught_by=['C09'], strengthened='C09 gained the iv.large stream (sizes 12345, 25001 and literal-seeded sizes; rows compared with the same rows queried alone) after missing it'),
+ 'C11-1': dict(breaks='C11', what='check_array skips the finiteness scan unless the dtype read BEFORE the float cast is float', needs='NaN / Inf arriving in an object-dtype array, a list with None, or numeric strings, on an entry point that validates only once (partial_dependence X, deviance_residuals / loglikelihood / score y)', caught_by=['C11'], strengthened='C11 gained object / None-list / numeric-string containers in the quick tier after missing it (which also exposed a genuine PoissonGAM.fit TypeError, repaired in 40fb32b)'),
+ 'C11-2': dict(breaks='C11', what='gridsearch no longer checks the width of X against the fitted model (revert of a repair)', needs='gridsearch on an already fitted model with X of another width (candidates\' ValueErrors are swallowed)', caught_by=['C11']),
+ 'C16-1': dict(breaks='C16', what='tensor_product computed block-wise above 2**23 elements drops the last partial row block', needs='a tensor block with n_rows * m_a * m_b > 2**23 and n_rows not a multiple of the block size', caught_by=['C16'], strengthened='C16 gained the columns.large stream (9.6M-element tensor block and literal-seeded sizes; rows compared with rows built alone) after missing it'),
+ 'C16-2': dict(breaks='C16', what='by-variable handling moved to a helper that tests `if not self.by`', needs='a spline or tensor term whose by-variable is feature 0', caught_by=['C16', 'C02']),
+ 'C20-1': dict(breaks='C20', what='tolerance floored at sqrt(eps) inside _pirls', needs='tol below 1.5e-8 on a model whose diffs plateau between tol and sqrt(eps) (Logistic / Poisson / Gamma)', caught_by=['C20']),
+ 'C20-2': dict(breaks='C20', what='callback dispatch refactor drops hook results that are None', needs='a user callback whose hook returns None on some or all iterations', caught_by=[], strengthened='pending: C20 builder is adding None-returning user callbacks'),
 }
 for k, v in T.items():
     d = os.path.join(HERE, 'seeded', k)
